@@ -67,7 +67,7 @@ package tubes
 //@   property C11
 //@   pure
 //@   requires len(b) >= 10 && (int(b[2]) << 8) + int(b[3]) <= len(b) - 10 && len(b) <= 65535
-//@   ensures f != nil
+//@   ensures f != nil && fresh(f)
 // (C18) decoding: the fields are these bytes; the data is the announced window of the message (not copied)
 //@   ensures f.tubeID == b[0] && f.dataLength == (uint16(b[2]) << 8) | uint16(b[3]) && uint8(f.tubeType) == b[4] &&
 //@        f.frameNo == (uint32(b[6]) << 24) | (uint32(b[7]) << 16) | (uint32(b[8]) << 8) | uint32(b[9])
@@ -126,6 +126,10 @@ package tubes
 //@   modifies opaque(m)
 //@   ensures typeis(t, "*hop.computer/hop/tubes.Reliable") || typeis(t, "*hop.computer/hop/tubes.Unreliable")
 //@   ensures ok ==> ref(t) != nil
+//@   ensures !ok ==> ref(t) == nil
+// (C09) the lookup is by (reliability, id): the reliable table for reliable frames, the unreliable one otherwise
+//@   ensures isReliable ==> typeis(t, "*hop.computer/hop/tubes.Reliable") && (ok <==> has(m.reliableTubes, tubeID)) && (ok ==> ref(t) == ref(m.reliableTubes[tubeID]))
+//@   ensures !isReliable ==> typeis(t, "*hop.computer/hop/tubes.Unreliable") && (ok <==> has(m.unreliableTubes, tubeID)) && (ok ==> ref(t) == ref(m.unreliableTubes[tubeID]))
 //@ func (m *Muxer) makeReliableTubeWithID(tType TubeType, tubeID byte, req bool) (t *Reliable, err error)
 //@   assume tube construction (allocates a tube, registers it in the muxer's table, starts its goroutines); does not touch the frame being dispatched or the receive buffer
 //@   modifies opaque(m)
@@ -136,11 +140,19 @@ package tubes
 //@ func (t Tube) receiveInitiatePkt(pkt *initiateFrame) (err error)
 //@   assume the tube's own state machine (C08 / C09): touches only the tube
 //@   requires ref(t) != nil
+// (C09) demultiplexing: the tube that gets the frame is the one looked up under exactly the frame's (reliability, id) -
+// or, if there was none and the frame is a REQ, the tube just created with the frame's id, type and reliability
+//@   requires dispatchedTo(t, pkt.tubeID, pkt.flags.REL)
 //@   modifies opaque(t)
 //@ func (t Tube) receive(pkt *frame) (err error)
 //@   assume the tube's own state machine (C08 / C09): touches only the tube
 //@   requires ref(t) != nil
+//@   requires dispatchedTo(t, pkt.tubeID, pkt.flags.REL)
 //@   modifies opaque(t)
+//@ macro dispatchedTo(t, id, rel) = called(tubes.Muxer.getTube) && argof(tubes.Muxer.getTube, tubeID) == id && (argof(tubes.Muxer.getTube, isReliable) <==> rel) &&
+//@        (resultof(tubes.Muxer.getTube, ok) ? same(t, resultof(tubes.Muxer.getTube, t)) :
+//@          (rel ? seqof(tubes.Muxer.makeReliableTubeWithID) > seqof(tubes.Muxer.getTube) && ref(t) == resultof(tubes.Muxer.makeReliableTubeWithID, t) && argof(tubes.Muxer.makeReliableTubeWithID, tubeID) == id
+//@               : seqof(tubes.Muxer.makeUnreliableTubeWithID) > seqof(tubes.Muxer.getTube) && ref(t) == resultof(tubes.Muxer.makeUnreliableTubeWithID, t) && argof(tubes.Muxer.makeUnreliableTubeWithID, tubeID) == id))
 
 //@ func (m *Muxer) receiver()
 //@   property C11
@@ -274,3 +286,77 @@ package tubes
 //@   ensures err == nil ==> s.finSent && s.finFrameNo == old(s.frameNo) && s.frameNo == old(s.frameNo) + 1 && len(s.frames) == old(len(s.frames)) + 1 &&
 //@        s.frames[len(s.frames)-1].frame.flags.FIN && s.frames[len(s.frames)-1].frame.frameNo == old(s.frameNo)
 //@   ensures err != nil ==> old(s.finSent) && s.frameNo == old(s.frameNo)
+
+// ===========================================================================
+// C09: tube identifiers and demultiplexing
+// ===========================================================================
+// A locally chosen id has this side's parity and is not in use in the table of its kind.
+//@ func (m *Muxer) pickTubeID(isReliable bool) (id byte, err error)
+//@   property C09
+//@   pure
+//@   requires m.idParity == 0 || m.idParity == 1
+//@   ensures err == nil ==> id % 2 == m.idParity && (isReliable ? !has(m.reliableTubes, id) : !has(m.unreliableTubes, id))
+//@   ensures err != nil ==> (forall g uint8 :: g % 2 == m.idParity ==> (isReliable ? has(m.reliableTubes, g) : has(m.unreliableTubes, g)))
+//@   loop 1
+//@     invariant guessInt >= 0 && guessInt % 2 == int(m.idParity) && guessInt <= 257
+//@     invariant forall g uint8 :: g % 2 == m.idParity && int(g) < guessInt ==> (isReliable ? has(m.reliableTubes, g) : has(m.unreliableTubes, g))
+
+// A message on an unreliable tube is one frame: this tube's id, not reliable, no control flags, the whole message
+// as data with its true length; a message that does not fit one frame is refused.
+//@ func (d *common.DeadlineChan) Send(v []byte) (err error)
+//@   assume channel send with deadline (C17)
+//@   modifies *
+//@ func (u *Unreliable) WriteMsgUDP(b []byte, oob []byte, addr *net.UDPAddr) (n int, oobn int, err error)
+//@   property C09
+//@   ensures err == nil ==> n == len(b) && len(b) <= 32768 && called(tubes.frame.toBytes) && callcount(tubes.frame.toBytes) == 1
+//@   after tubes.frame.toBytes let sentID = argof(tubes.frame.toBytes, p).tubeID
+//@   after tubes.frame.toBytes let sentLen = argof(tubes.frame.toBytes, p).dataLength
+//@   after tubes.frame.toBytes let sentPlain = (let p = argof(tubes.frame.toBytes, p) in !p.flags.REL && !p.flags.REQ && !p.flags.RESP && !p.flags.ACK && !p.flags.FIN && !p.flags.RTR)
+//@   after tubes.frame.toBytes let sentWhole = same(argof(tubes.frame.toBytes, p).data, b)
+//@   after tubes.frame.toBytes let ownID = u.id
+//@   ensures called(tubes.frame.toBytes) ==> sentID == ownID && sentPlain && int(sentLen) == len(b) && sentWhole
+//@   ensures len(b) > 32768 ==> err != nil && !called(tubes.frame.toBytes)
+
+// Every frame a reliable tube emits is addressed to the reliable tube of the same id on the peer: REL set, own id.
+//@ func (r *receiver) getAck() (a uint32)
+//@   atomic
+//@   pure
+//@ func (r *Reliable) sendOneFrame(pkt *frame, retransmission bool)
+//@   property C09
+//@   after tubes.frame.toBytes let sentRel1 = argof(tubes.frame.toBytes, p).flags.REL
+//@   after tubes.frame.toBytes let sentID1 = argof(tubes.frame.toBytes, p).tubeID
+//@   after tubes.frame.toBytes let ownID1 = r.id
+//@   ensures called(tubes.frame.toBytes) ==> sentRel1 && sentID1 == ownID1 && same(argof(tubes.frame.toBytes, p), pkt)
+//@ func (r *Reliable) sendRetransmissionAck(lastFrameNo uint32, ackNo uint32, tubeId byte)
+//@   property C09
+//@   after tubes.frame.toBytes let sentRel2 = argof(tubes.frame.toBytes, p).flags.REL
+//@   after tubes.frame.toBytes let sentID2 = argof(tubes.frame.toBytes, p).tubeID
+//@   ensures called(tubes.frame.toBytes) && sentRel2 && sentID2 == tubeId
+
+// The side that OPENED a reliable tube (its id has this muxer's parity) keeps the id reserved for 4 RTTs after the
+// close - the peer may still sit in lastAck - before the table entry is deleted; the other side deletes at once.
+// Either way the entry deleted is the tube's own (table by kind, key by id).
+//@ func (t Tube) WaitForClose()
+//@   assume blocks until the tube is closed (C17)
+//@   modifies *
+//@ spec tubeIDOf(t Ref) uint8
+//@ func (t Tube) GetID() (id byte)
+//@   assume getter of the tube's immutable id
+//@   pure
+//@   ensures id == tubeIDOf(ref(t))
+//@ func (t Tube) IsReliable() (rel bool)
+//@   assume constant per implementation: true for *Reliable, false for *Unreliable
+//@   pure
+//@   ensures rel <==> typeis(t, "*hop.computer/hop/tubes.Reliable")
+//@ func (t Tube) getLog() (l *logrus.Entry)
+//@   assume getter
+//@   pure
+//@ func time.NewTimer(d time.Duration) (t *time.Timer)
+//@   assume standard library
+//@   pure
+//@   ensures t != nil
+//@ func (m *Muxer) reapTube(t Tube)
+//@   property C09
+//@   requires ref(t) != nil && (typeis(t, "*hop.computer/hop/tubes.Reliable") || typeis(t, "*hop.computer/hop/tubes.Unreliable"))
+//@   after tubes.Tube.WaitForClose let parityAtClose = m.idParity
+//@   ensures called(time.NewTimer) <==> (typeis(t, "*hop.computer/hop/tubes.Reliable") && tubeIDOf(ref(t)) % 2 == parityAtClose)
